@@ -11,7 +11,7 @@ import (
 )
 
 func init() {
-	register("C18", "Decides structural conditions of 'arguments reach resolvers exactly as sent': valueToJson returns only the JSON shapes a variable can have (float64 via ParseInt/ParseFloat, string, bool, map[string]interface{}, []interface{}, nil, or a variable's value unchanged) and errors otherwise; every entry of the scalar argument-parser table asserts the JSON type matching its key's kind (numbers float64, strings/bytes/time string, bool bool), returns an error when the assertion fails, and converts through the key's own type (one recorded exception: uint64 through int64); optional wrappers return nil without touching the destination or calling the inner parser when the value is nil and otherwise return the inner parser's error; struct parsers visit every field and slice parsers size to the input and parse every index, propagating errors; in Parse a default is installed only when no non-null value was supplied, non-null variables with defaults are rejected, and the caller's variables map is never written; Field.ParseArguments is invoked only by validation (prepareQuery), once per selection, and resolvers receive selection.Args. Not decided: value equality for every type and magnitude.", c18)
+	register("C18", "Decides structural conditions of 'arguments reach resolvers exactly as sent': valueToJson returns only the JSON shapes a variable can have (float64 via ParseInt/ParseFloat, string, bool, map[string]interface{}, []interface{}, nil, or a variable's value unchanged) and errors otherwise; every entry of the scalar argument-parser table asserts the JSON type matching its key's kind (numbers float64, strings/bytes/time string, bool bool), returns an error when the assertion fails, and converts through the key's own type (one recorded exception: uint64 through int64); optional wrappers return nil without touching the destination or calling the inner parser when the value is nil and otherwise return the inner parser's error; struct parsers visit every field and slice parsers size to the input and parse every index, propagating errors; in Parse a default is installed only when no non-null value was supplied, non-null variables with defaults are rejected, and the caller's variables map is never written; Field.ParseArguments is invoked only by validation (prepareQuery), once per selection, and resolvers receive selection.Args; the pointer parser sets its destination whenever the inner parser accepted the value (a sent zero value is not turned into nil). Not decided: value equality for every type and magnitude.", c18)
 }
 
 func c18(c *an.Ctx) {
@@ -258,6 +258,9 @@ func c18(c *an.Ctx) {
 			o.Fail(p.Pos(cl.Pos()), "%s never calls the inner parser", name)
 		}
 	}
+	c.Check("R-POST", "wrapPtrParser: once the inner parser accepted the value the destination is set on every path (a sent zero value is still a sent value)", 1, func(o *an.O) {
+		rulePtrParserAlwaysSets(c, o)
+	})
 	c.Check("R-GUARD", "wrapPtrParser: nil value returns nil without touching dest or calling inner; otherwise inner's error is returned", 2, func(o *an.O) { optional(o, "wrapPtrParser") })
 	c.Check("R-GUARD", "wrapWithZeroValue: nil value returns nil without touching dest or calling inner; otherwise inner's error is returned", 2, func(o *an.O) { optional(o, "wrapWithZeroValue") })
 
